@@ -901,7 +901,7 @@ class MapType(_ParameterizedType):
                 keybytes = byts[p:p + key_len]
                 p += key_len
                 key = key_type.from_binary(keybytes, inner_proto)
-                if key_type.subtypes:
+                if key_type.subtypes or getattr(key_type, 'subtype', None) is not None:
                     # lookups serialize the decoded key; a decoded set is sorted, which need
                     # not be the order of the elements on the wire
                     keybytes = key_type.to_binary(key, inner_proto)
